@@ -17,6 +17,7 @@ type SolverCfg struct {
 	WorkDir  string
 	Seed     int
 	Cross    bool // thorough: run all solvers and report disagreement
+	Retries  int  // extra rounds (other seeds, doubled budget) for obligations left undecided
 }
 
 type solverDef struct {
@@ -113,6 +114,28 @@ func Discharge(obls []*Obligation, cfg SolverCfg) error {
 		}(i, o)
 	}
 	wg.Wait()
+	// obligations no solver decided are retried with other seeds and a longer budget: a proof found
+	// under any seed is a proof; only an obligation that stays undecided (or is refuted) fails
+	for attempt := 1; attempt <= cfg.Retries; attempt++ {
+		var again []*Obligation
+		for _, o := range obls {
+			if o.Result == "unknown" && !o.MustFail {
+				again = append(again, o)
+			}
+		}
+		if len(again) == 0 {
+			break
+		}
+		c2 := cfg
+		c2.Retries = 0
+		c2.Seed = cfg.Seed + 101*attempt
+		c2.TimeoutS = cfg.TimeoutS * 2
+		for _, o := range again {
+			o.Result = ""
+			o.Detail += fmt.Sprintf("[retry %d, seed %d] ", attempt, c2.Seed)
+		}
+		Discharge(again, c2)
+	}
 	return nil
 }
 
